@@ -234,7 +234,12 @@ func (s *sched) spawn(name string, f func()) *thread {
 		defer func() {
 			if e := recover(); e != nil {
 				if rd, ok := e.(ReplayDivergence); ok {
+					// the execution is void: end it here (the other threads stay parked) instead of
+					// scheduling on, which would only diverge again
 					s.x.Panics = append(s.x.Panics, "REPLAY-DIVERGENCE: "+rd.Msg)
+					t.st = tDone
+					s.end()
+					return
 				} else {
 					s.x.Panics = append(s.x.Panics, fmt.Sprintf("%s: %v\n%s", t.name, e, trimStack(debug.Stack())))
 				}
